@@ -16,7 +16,7 @@ func secs(d time.Duration) int64 { return int64(d / time.Second) }
 func Steady() {
 	e := env.New()
 	pol := env.Policies[vx.Choice("policy", vx.Param("policies"))]
-	cache := vx.Choice("cache", vx.Param("caches"))
+	cache := env.CacheChoice()
 	f := e.Factory(e.Policy(pol, cache))
 	sess, _ := f.GetSession("p0")
 	I, E := secs(pol.Revoke), secs(pol.Expire)
@@ -68,7 +68,7 @@ func Steady() {
 		}
 		vx.Assert("C20.op_ok", err == nil)
 		dm, dk := e.Store.Calls()-m0, e.KMS.Encs+e.KMS.Decs-k0
-		if cache == env.CacheNone {
+		if env.NoCaching(cache) {
 			vx.Assert("C20.nocache_rereads", dm > 0)
 			vx.Assert("C20.nocache_retains_nothing", e.Secrets.Live() == 0)
 		} else {
@@ -133,7 +133,7 @@ func SharedSK() {
 		}
 		s.Close()
 	}
-	if cache != env.CacheNone && e.Store.Rows(env.SKID()) == 1 {
+	if !env.NoCaching(cache) && e.Store.Rows(env.SKID()) == 1 {
 		// (one system key in play: after a rotation two generations are in use, each unwrapped on its own account,
 		// and a capacity-1 system-key cache cannot hold both)
 		vx.Assert("C20.sk_unwrapped_at_most_once_per_interval", e.KMS.Decs-d0 <= 1)
